@@ -46,8 +46,12 @@ var names = allNames()
 // types; for the floating types values that are not whole numbers, infinities and a value
 // beyond int32 (all exact in float32).
 func probeVal(tn string, k int) kit.Val {
-	if kit.Info(tn).Kind == kit.Float {
-		return kit.FV([]float64{0.25, -0.5, 1.5, -7.75, 100.5, 0.0009765625, math.Inf(1), math.Inf(-1), 3221225472}[k%9])
+	if ti := kit.Info(tn); ti.Kind == kit.Float {
+		tiny := math.SmallestNonzeroFloat64 // a subnormal of the element type
+		if ti.Bits == 32 {
+			tiny = float64(math.SmallestNonzeroFloat32)
+		}
+		return kit.FV([]float64{0.25, -0.5, 1.5, -7.75, 100.5, 0.0009765625, math.Inf(1), math.Inf(-1), 3221225472, tiny, -3 * tiny}[k%11])
 	}
 	return kit.IV(int64(100 + k%27))
 }
